@@ -1,107 +1,83 @@
-"""Enumerate every function, operator, constructor and conversion declared in LinearSpace.h, AffineSpace.h, Quaternion.h from the clang JSON AST
-of the instantiation TU, with the number of instantiations (bodies) clang produced for each in that TU.
-Key of a declaration: '<header> <name> <declared type>' -- stable under edits of function bodies."""
+"""Enumerate every function, operator, constructor and conversion declared in LinearSpace.h, AffineSpace.h,
+Quaternion.h from the clang JSON AST of the instantiation TU, with the number of instantiated bodies clang produced for
+each in that TU.  A template instantiation carries the source location of its pattern, so patterns and instances are
+matched by (header, line); clang's JSON omits 'file'/'line' when unchanged from the previously printed location, so the
+whole dump is walked in print order to keep that state.
+Key of a declaration: '<header> [Class::]<name> <declared type>' -- stable under edits of function bodies."""
 import os, sys
 HEADERS = ("LinearSpace.h", "AffineSpace.h", "Quaternion.h")
+FUNCS = ("FunctionDecl", "CXXMethodDecl", "CXXConstructorDecl", "CXXConversionDecl")
 
 
 def scan(docs):
-    decls = {}     # key -> {"line":, "inst": n, "kind":}
-    state = {"file": None}
+    st = {"file": "", "line": 0}
+    pats = {}       # (header, line) -> key
+    decls = {}      # key -> {"line", "inst"}
+    insts = []      # (header, line) of instantiated bodies
 
-    def loc_file(n):
-        # clang's JSON only mentions 'file' when it changes: track it while walking in order
-        for k in ("loc", "range"):
-            l = n.get(k) or {}
-            for sub in (l, l.get("begin") or {}, l.get("expansionLoc") or {}, l.get("spellingLoc") or {}):
-                if isinstance(sub, dict) and "file" in sub:
-                    state["file"] = sub["file"]
-        return state["file"]
-
-    def is_op(n):
-        k = n.get("kind")
-        nm = n.get("name", "")
-        if n.get("isImplicit") or n.get("explicitlyDefaulted"): return False
-        return k in ("CXXConversionDecl", "FunctionDecl", "CXXMethodDecl", "CXXConstructorDecl")
+    def loc(o):
+        if isinstance(o, dict):
+            if "offset" in o or "file" in o or "line" in o:
+                if "file" in o: st["file"] = o["file"]
+                if "line" in o: st["line"] = o["line"]
+            for k in ("spellingLoc", "expansionLoc", "begin", "end"):
+                if k in o: loc(o[k])
 
     def has_body(n):
-        return any(c.get("kind") == "CompoundStmt" for c in n.get("inner", []) or [])
+        return any(isinstance(c, dict) and c.get("kind") == "CompoundStmt" for c in n.get("inner", []) or [])
 
-    def line_of(n):
-        l = n.get("loc") or {}
-        return l.get("line") or (l.get("expansionLoc") or {}).get("line") or (l.get("spellingLoc") or {}).get("line")
-
-    def add(n, cls, inst):
-        f = state["file"] or ""
-        base = os.path.basename(f)
-        if base not in HEADERS: return None
-        key = "%s %s%s %s" % (base, (cls + "::") if cls else "", n.get("name", ""), n.get("type", {}).get("qualType", ""))
-        d = decls.setdefault(key, {"line": line_of(n), "inst": 0, "kind": n.get("kind")})
-        d["inst"] += inst
-        return key
-
-    def walk(n, cls, in_pattern):
+    def walk(n, cls, ctx):
+        """ctx: 'ns' (namespace scope), 'pat' (inside a class template pattern), 'spec' (inside a class specialisation)"""
         k = n.get("kind")
-        loc_file(n)
-        if k == "FunctionTemplateDecl":
-            kids = [c for c in n.get("inner", []) or [] if c.get("kind") in ("FunctionDecl", "CXXMethodDecl", "CXXConstructorDecl", "CXXConversionDecl")]
-            if kids:
-                pat = kids[0]
-                loc_file(pat)
-                conv_ctor = pat.get("kind") == "CXXConstructorDecl"
-                if is_op(pat) or conv_ctor:
-                    if conv_ctor: pat = dict(pat, name="<converting constructor>")
-                    key = add(pat, cls, 0)
-                    if key:
-                        decls[key]["inst"] += sum(1 for c in kids[1:] if has_body(c))
-            return
-        if k == "ClassTemplateDecl":
-            first = True
-            for c in n.get("inner", []) or []:
-                if c.get("kind") == "CXXRecordDecl" and first:
-                    first = False
-                    walk_class(c, c.get("name", ""))
-                elif c.get("kind") == "ClassTemplateSpecializationDecl":
-                    walk_spec(c, c.get("name", ""))
-            return
-        if is_op(n) and cls is None:
-            add(n, None, 1 if has_body(n) else 0)
-            return
-        for c in n.get("inner", []) or []:
-            if isinstance(c, dict): walk(c, cls, in_pattern)
+        pos = None
+        for key, val in n.items():
+            if key == "loc":
+                loc(val); pos = (os.path.basename(st["file"]), st["line"])
+            elif key == "range":
+                loc(val)
+            elif key == "inner":
+                first_fn, first_rec = True, True
+                for c in val:
+                    if not isinstance(c, dict): continue
+                    ck = c.get("kind")
+                    if k == "FunctionTemplateDecl" and ck in FUNCS:
+                        walk_fn(c, cls, "pat" if (first_fn or ctx == "pat") else "inst"); first_fn = False
+                    elif k == "ClassTemplateDecl" and ck == "CXXRecordDecl" and first_rec:
+                        first_rec = False; walk(c, c.get("name", ""), "pat")
+                    elif ck == "ClassTemplateSpecializationDecl":
+                        walk(c, c.get("name", ""), "spec")
+                    elif ck in FUNCS and k != "FunctionTemplateDecl":
+                        walk_fn(c, cls, {"ns": "plain", "pat": "pat", "spec": "inst"}[ctx])
+                    else:
+                        walk(c, cls, ctx)
+        return pos
 
-    def walk_class(n, cname):       # the class template pattern: declares the member operators
-        for c in n.get("inner", []) or []:
-            loc_file(c)
-            if is_op(c): add(c, cname, 0)
-            elif c.get("kind") == "FunctionTemplateDecl": walk(c, cname, True)
-
-    def walk_spec(n, cname):        # a specialisation: count used member bodies
-        for c in n.get("inner", []) or []:
-            loc_file(c)
-            if is_op(c) and has_body(c) and (c.get("isUsed") or c.get("isReferenced")):
-                f = state["file"] or ""
-                # same key as in the pattern is not recoverable from the substituted type: count by name
-                for key, d in decls.items():
-                    if key.startswith("%s %s::%s " % (os.path.basename(f), cname, c.get("name", ""))):
-                        d["inst"] += 1
-            elif c.get("kind") == "FunctionTemplateDecl":
-                kids = [x for x in c.get("inner", []) or [] if x.get("kind") == "CXXConstructorDecl"]
-                n_inst = sum(1 for x in kids[1:] if has_body(x))
-                if kids and n_inst:
-                    f = state["file"] or ""
-                    for key, d in decls.items():
-                        if key.startswith("%s %s::<converting constructor> " % (os.path.basename(f), cname)):
-                            d["inst"] += n_inst
+    def walk_fn(n, cls, role):
+        pos = walk(n, cls, "ns")          # keeps the location state current through the body
+        if pos is None or pos[0] not in HEADERS: return
+        if n.get("isImplicit") or n.get("explicitlyDefaulted") or n.get("explicitlyDeleted"): return
+        name = n.get("name", "")
+        if n.get("kind") == "CXXConstructorDecl": name = "<constructor>"
+        key = "%s %s%s %s" % (pos[0], (cls + "::") if cls else "", name, n.get("type", {}).get("qualType", ""))
+        if role in ("pat", "plain"):
+            if pos not in pats:
+                pats[pos] = key
+                decls[key] = {"line": pos[1], "inst": 0}
+            if role == "plain" and has_body(n): insts.append(pos)
+        elif has_body(n):
+            insts.append(pos)
 
     for d in docs:
-        walk(d, None, False)
+        walk(d, None, "ns")
+    for pos in insts:
+        if pos in pats: decls[pats[pos]]["inst"] += 1
     return decls
 
 
 if __name__ == "__main__":
     sys.path.insert(0, os.path.join(os.path.dirname(os.path.abspath(__file__)), "..", "..", "tools", "cxx2coq"))
     from astutil import load_docs
+    sys.setrecursionlimit(10000)
     ds = scan(load_docs(sys.argv[1]))
     for k in sorted(ds, key=lambda k: (k.split()[0], ds[k]["line"] or 0)):
         print("%3d inst  line %-4s %s" % (ds[k]["inst"], ds[k]["line"], k))
